@@ -40,8 +40,16 @@ type effect struct {
 }
 
 type ctx struct {
-	funcs  map[string]*ast.FuncDecl // "Recv.Name" or "Name"
-	consts map[string]string
+	funcs   map[string]*ast.FuncDecl // "Recv.Name" or "Name"
+	consts  map[string]string
+	structs map[string][]string // struct type -> field names in declaration order
+	aliases map[string]string   // type alias -> aliased type (no-space text)
+}
+
+// retPath is one way a helper returns: the guards accumulated inside it and the canonical results
+type retPath struct {
+	guards  []guard
+	results []string
 }
 
 // primitives are never inlined: they are the vocabulary the facts are stated in.
@@ -65,6 +73,8 @@ type walker struct {
 	rets    [][][]guard // per result index: disjuncts
 	nres    int
 	depth   int
+	paths   *[]retPath // when walking a helper for its value: the return paths
+	resNames []string  // named results of the function being walked
 }
 
 func recvOf(fd *ast.FuncDecl) (name, typ string) {
@@ -128,6 +138,15 @@ func (w *walker) canon(e ast.Expr) string {
 	case *ast.SliceExpr:
 		return w.canon(x.X) + "[" + w.canon(x.Low) + ":" + w.canon(x.High) + "]"
 	case *ast.CallExpr:
+		if fd, _ := w.calleeDecl(x); fd != nil && w.depth < 4 {
+			// a helper whose body is a single `return e` is the expression e
+			if fd.Body != nil && len(fd.Body.List) == 1 {
+				if r, ok := fd.Body.List[0].(*ast.ReturnStmt); ok && len(r.Results) == 1 {
+					sub := w.subWalker(fd, x)
+					return sub.canon(r.Results[0])
+				}
+			}
+		}
 		fn := w.canon(x.Fun)
 		// copy idioms carry no information: new(big.Int).Set(v) is v
 		if !w.noCollapse && strings.HasSuffix(fn, ".Set") && strings.HasPrefix(fn, "new(big.Int)") && len(x.Args) == 1 {
@@ -160,20 +179,31 @@ func (w *walker) canon(e ast.Expr) string {
 		}
 		return "(" + a + x.Op.String() + b + ")"
 	case *ast.CompositeLit:
+		tn := typeName(x.Type)
+		if a, ok := w.c.aliases[tn]; ok {
+			tn = a
+		}
+		fields, isStruct := w.c.structs[tn]
 		var fs []string
-		for _, el := range x.Elts {
+		for i, el := range x.Elts {
 			if kv, ok := el.(*ast.KeyValueExpr); ok {
 				k := w.canon(kv.Key)
-				if id, ok := kv.Key.(*ast.Ident); ok {
+				if id, ok := kv.Key.(*ast.Ident); ok && (isStruct || x.Type == nil || !strings.HasPrefix(tn, "map[")) {
 					k = id.Name // a field name
 				}
-				fs = append(fs, k+"="+w.canon(kv.Value))
+				v := w.canon(kv.Value)
+				if cl, ok := kv.Value.(*ast.CompositeLit); ok && cl.Type == nil && len(cl.Elts) == 0 {
+					v = "{}"
+				}
+				fs = append(fs, k+"="+v)
+			} else if isStruct && i < len(fields) {
+				fs = append(fs, fields[i]+"="+w.canon(el)) // positional struct literal
 			} else {
 				fs = append(fs, w.canon(el))
 			}
 		}
 		sort.Strings(fs)
-		return typeName(x.Type) + "{" + strings.Join(fs, ";") + "}"
+		return tn + "{" + strings.Join(fs, ";") + "}"
 	case *ast.FuncLit:
 		return "func"
 	case *ast.KeyValueExpr:
@@ -343,7 +373,10 @@ func (w *walker) isState(e ast.Expr) bool {
 
 func (w *walker) block(list []ast.Stmt, g []guard) {
 	g = copyGuards(g)
-	for _, s := range list {
+	for i, s := range list {
+		if w.splitOnHelper(s, list[i+1:], g) {
+			return
+		}
 		switch st := s.(type) {
 		case *ast.IfStmt:
 			if st.Init != nil {
@@ -426,7 +459,7 @@ func (w *walker) calleeDecl(call *ast.CallExpr) (*ast.FuncDecl, ast.Expr) {
 		if primitives[f.Sel.Name] || ast.IsExported(f.Sel.Name) {
 			return nil, nil
 		}
-		if id, ok := f.X.(*ast.Ident); ok && id.Name == w.recv {
+		if id, ok := f.X.(*ast.Ident); ok && ((id.Name == w.recv && w.recv != "") || w.env[id.Name] == "recv") {
 			if fd, ok := w.c.funcs[w.recvTyp+"."+f.Sel.Name]; ok {
 				return fd, f.X
 			}
@@ -435,14 +468,17 @@ func (w *walker) calleeDecl(call *ast.CallExpr) (*ast.FuncDecl, ast.Expr) {
 	return nil, nil
 }
 
-// inline walks the body of an unexported helper under the current guards
-func (w *walker) inline(fd *ast.FuncDecl, call *ast.CallExpr, g []guard) {
-	if w.depth > 3 || fd.Body == nil {
-		return
-	}
-	sub := &walker{c: w.c, recv: "", recvTyp: w.recvTyp, env: map[string]string{}, errVars: map[string]bool{}, stateRoots: map[string]bool{}, depth: w.depth + 1, mutated: w.mutated}
-	if rn, _ := recvOf(fd); rn != "" {
-		sub.env[rn] = "recv"
+// subWalker prepares a walker for the body of helper fd called as call: receiver and parameters
+// are replaced by the canonical text of the actual arguments
+func (w *walker) subWalker(fd *ast.FuncDecl, call *ast.CallExpr) *walker {
+	sub := &walker{c: w.c, recv: "", recvTyp: w.recvTyp, env: map[string]string{}, errVars: map[string]bool{}, stateRoots: map[string]bool{}, depth: w.depth + 1, mutated: w.mutated, noCollapse: w.noCollapse}
+	if rn, rt := recvOf(fd); rn != "" {
+		sub.recvTyp = rt
+		if sel, ok := call.Fun.(*ast.SelectorExpr); ok {
+			sub.env[rn] = w.canon(sel.X)
+		} else {
+			sub.env[rn] = "recv"
+		}
 	}
 	i := 0
 	for _, p := range fd.Type.Params.List {
@@ -453,14 +489,161 @@ func (w *walker) inline(fd *ast.FuncDecl, call *ast.CallExpr, g []guard) {
 			i++
 		}
 	}
+	if fd.Type.Results != nil {
+		for _, r := range fd.Type.Results.List {
+			for _, n := range r.Names {
+				sub.resNames = append(sub.resNames, n.Name)
+			}
+		}
+	}
+	return sub
+}
+
+// inline walks the body of an unexported helper under the current guards and returns the ways it
+// returns (guards inside the helper, canonical results)
+func (w *walker) inline(fd *ast.FuncDecl, call *ast.CallExpr, g []guard) []retPath {
+	if w.depth > 3 || fd.Body == nil {
+		return nil
+	}
+	sub := w.subWalker(fd, call)
+	var paths []retPath
+	sub.paths = &paths
 	sub.block(fd.Body.List, g)
+	if !terminates(fd.Body.List) {
+		paths = append(paths, retPath{guards: copyGuards(g)}) // falls off the end
+	}
 	w.effects = append(w.effects, sub.effects...)
 	w.mutated = sub.mutated
+	return paths
+}
+
+// helperCall returns the inlineable helper call a statement hinges on (assignment right-hand side,
+// returned value, condition), if any
+func (w *walker) helperCallOf(e ast.Expr) (*ast.CallExpr, *ast.FuncDecl) {
+	for {
+		if p, ok := e.(*ast.ParenExpr); ok {
+			e = p.X
+			continue
+		}
+		break
+	}
+	if c, ok := e.(*ast.CallExpr); ok {
+		if fd, _ := w.calleeDecl(c); fd != nil && fd.Type.Results != nil && len(fd.Type.Results.List) > 0 {
+			// single-expression helpers are handled inside canon
+			if fd.Body != nil && len(fd.Body.List) == 1 {
+				if r, ok := fd.Body.List[0].(*ast.ReturnStmt); ok && len(r.Results) == 1 {
+					return nil, nil
+				}
+			}
+			return c, fd
+		}
+	}
+	return nil, nil
+}
+
+var tmpCounter int
+
+// splitOnHelper: if statement s hinges on a value-returning helper, walk the helper, and for each of
+// its return paths walk s (with the results bound) and the rest of the block; reports whether it did
+func (w *walker) splitOnHelper(s ast.Stmt, rest []ast.Stmt, g []guard) bool {
+	var call *ast.CallExpr
+	var fd *ast.FuncDecl
+	var rebuild func(names []string) ast.Stmt
+	switch st := s.(type) {
+	case *ast.AssignStmt:
+		if len(st.Rhs) == 1 {
+			if c, f := w.helperCallOf(st.Rhs[0]); c != nil {
+				call, fd = c, f
+				rebuild = func(names []string) ast.Stmt {
+					// bind the left-hand sides to the results
+					for i, l := range st.Lhs {
+						if i < len(names) {
+							if id, ok := l.(*ast.Ident); ok && id.Name != "_" {
+								if st.Tok == token.DEFINE || !w.isState(l) {
+									w.env[id.Name] = w.env[names[i]]
+								}
+							}
+						}
+					}
+					return nil
+				}
+			}
+		}
+	case *ast.ReturnStmt:
+		for i, r := range st.Results {
+			if c, f := w.helperCallOf(r); c != nil {
+				call, fd = c, f
+				idx := i
+				rebuild = func(names []string) ast.Stmt {
+					ns := &ast.ReturnStmt{Results: append([]ast.Expr{}, st.Results...)}
+					if len(names) > 0 {
+						ns.Results[idx] = &ast.Ident{Name: names[0]}
+					}
+					return ns
+				}
+				break
+			}
+		}
+	case *ast.IfStmt:
+		if st.Init == nil {
+			cond := st.Cond
+			neg := false
+			if u, ok := cond.(*ast.UnaryExpr); ok && u.Op == token.NOT {
+				cond, neg = u.X, true
+			}
+			if c, f := w.helperCallOf(cond); c != nil {
+				call, fd = c, f
+				rebuild = func(names []string) ast.Stmt {
+					ns := *st
+					if len(names) > 0 {
+						var ce ast.Expr = &ast.Ident{Name: names[0]}
+						if neg {
+							ce = &ast.UnaryExpr{Op: token.NOT, X: ce}
+						}
+						ns.Cond = ce
+					}
+					return &ns
+				}
+			}
+		} else if as, ok := st.Init.(*ast.AssignStmt); ok && len(as.Rhs) == 1 {
+			if c, _ := w.helperCallOf(as.Rhs[0]); c != nil && !w.mentionsErr(st.Cond) {
+				// if x := helper(); cond {…}  ==  x := helper(); if cond {…}
+				ns := *st
+				ns.Init = nil
+				return w.splitOnHelper(as, append([]ast.Stmt{&ns}, rest...), g)
+			}
+		}
+	}
+	if call == nil {
+		return false
+	}
+	paths := w.inline(fd, call, g)
+	for _, p := range paths {
+		saved := map[string]string{}
+		for k, v := range w.env {
+			saved[k] = v
+		}
+		var names []string
+		for _, r := range p.results {
+			tmpCounter++
+			n := fmt.Sprintf("__h%d", tmpCounter)
+			w.env[n] = r
+			names = append(names, n)
+		}
+		var list []ast.Stmt
+		if ns := rebuild(names); ns != nil {
+			list = append(list, ns)
+		}
+		list = append(list, rest...)
+		w.block(list, p.guards)
+		w.env = saved
+	}
+	return true
 }
 
 func (w *walker) callEffect(call *ast.CallExpr, g []guard) {
 	if fd, _ := w.calleeDecl(call); fd != nil {
-		w.inline(fd, call, g)
+		_ = w.inline(fd, call, g)
 		return
 	}
 	fn := w.canon(call.Fun)
@@ -531,6 +714,18 @@ func (w *walker) stmt(s ast.Stmt, g []guard) {
 	case *ast.DeclStmt:
 		// var x T: nothing
 	case *ast.ReturnStmt:
+		if w.paths != nil {
+			p := retPath{guards: copyGuards(g)}
+			if len(st.Results) == 0 {
+				for _, n := range w.resNames {
+					p.results = append(p.results, w.canon(&ast.Ident{Name: n}))
+				}
+			}
+			for _, r := range st.Results {
+				p.results = append(p.results, w.canon(r))
+			}
+			*w.paths = append(*w.paths, p)
+		}
 		for i, r := range st.Results {
 			if i >= w.nres || w.depth > 0 {
 				break
@@ -567,7 +762,7 @@ func (w *walker) stmt(s ast.Stmt, g []guard) {
 		if len(st.Rhs) == 1 && len(st.Lhs) >= 1 {
 			if c, ok := st.Rhs[0].(*ast.CallExpr); ok {
 				if fd, _ := w.calleeDecl(c); fd != nil {
-					w.inline(fd, c, g)
+					_ = w.inline(fd, c, g)
 				} else if w.isInteresting(c) {
 					w.callEffect(c, g)
 				}
@@ -697,69 +892,260 @@ func guardsStr(gs []guard) string {
 	return "[" + strings.Join(ss, "; ") + "]"
 }
 
-// merge joins (e, G+a) and (e, G+not a) into (e, G), repeatedly; duplicate guards are dropped
-func merge(effs []effect) []effect {
-	norm := func(gs []guard) []guard {
-		m := map[string]bool{}
-		var out []guard
-		for _, g := range gs {
-			k := fmt.Sprintf("%s|%v", g.atom, g.pos)
-			if !m[k] {
-				m[k] = true
-				out = append(out, g)
+// ---------------------------------------------------------------- canonical guard conditions
+//
+// The condition under which an effect happens is the disjunction, over its occurrences, of the
+// conjunction of the guards on the path.  It is printed in Blake canonical form (the set of ALL
+// prime implicants over the atomic conditions), which does not depend on how the branches were
+// written: if/else vs guard clauses, a||b vs nested ifs, inverted tests, split helpers.
+
+type bexpr struct {
+	op   string // "leaf", "not", "and", "or", "const"
+	leaf string
+	val  bool
+	args []*bexpr
+}
+
+func splitArgs(s string) []string {
+	var out []string
+	depth, start := 0, 0
+	for i, c := range s {
+		switch c {
+		case '(', '[', '{':
+			depth++
+		case ')', ']', '}':
+			depth--
+		case ',':
+			if depth == 0 {
+				out = append(out, s[start:i])
+				start = i + 1
 			}
 		}
-		sort.Slice(out, func(i, j int) bool {
-			if out[i].atom != out[j].atom {
-				return out[i].atom < out[j].atom
-			}
-			return !out[i].pos && out[j].pos
-		})
-		return out
 	}
-	for i := range effs {
-		effs[i].guards = norm(effs[i].guards)
+	return append(out, s[start:])
+}
+
+func parseB(s string) *bexpr {
+	switch {
+	case s == "true":
+		return &bexpr{op: "const", val: true}
+	case s == "false":
+		return &bexpr{op: "const", val: false}
 	}
-	for changed := true; changed; {
-		changed = false
-	outer:
-		for i := 0; i < len(effs); i++ {
-			for j := i + 1; j < len(effs); j++ {
-				a, b := effs[i], effs[j]
-				if a.text != b.text || len(a.guards) != len(b.guards) {
-					continue
-				}
-				diff := -1
-				okk := true
-				for k := range a.guards {
-					if a.guards[k].atom != b.guards[k].atom {
+	for _, op := range []string{"not", "and", "or"} {
+		if strings.HasPrefix(s, op+"(") && strings.HasSuffix(s, ")") {
+			inner := s[len(op)+1 : len(s)-1]
+			// the closing parenthesis must match the opening one
+			depth, okk := 0, true
+			for i, c := range inner {
+				if c == '(' {
+					depth++
+				} else if c == ')' {
+					depth--
+					if depth < 0 {
 						okk = false
+						_ = i
 						break
 					}
-					if a.guards[k].pos != b.guards[k].pos {
-						if diff >= 0 {
-							okk = false
-							break
-						}
-						diff = k
-					}
-				}
-				if okk && diff >= 0 {
-					ng := append(append([]guard{}, a.guards[:diff]...), a.guards[diff+1:]...)
-					effs[i].guards = ng
-					effs = append(effs[:j], effs[j+1:]...)
-					changed = true
-					break outer
-				}
-				if okk && diff < 0 { // identical
-					effs = append(effs[:j], effs[j+1:]...)
-					changed = true
-					break outer
 				}
 			}
+			if !okk || depth != 0 {
+				break
+			}
+			b := &bexpr{op: op}
+			for _, a := range splitArgs(inner) {
+				b.args = append(b.args, parseB(a))
+			}
+			return b
+		}
+	}
+	return &bexpr{op: "leaf", leaf: s}
+}
+
+func (b *bexpr) leaves(m map[string]bool) {
+	if b.op == "leaf" {
+		m[b.leaf] = true
+	}
+	for _, a := range b.args {
+		a.leaves(m)
+	}
+}
+
+func (b *bexpr) eval(as map[string]bool) bool {
+	switch b.op {
+	case "const":
+		return b.val
+	case "leaf":
+		return as[b.leaf]
+	case "not":
+		return !b.args[0].eval(as)
+	case "and":
+		for _, a := range b.args {
+			if !a.eval(as) {
+				return false
+			}
+		}
+		return true
+	case "or":
+		for _, a := range b.args {
+			if a.eval(as) {
+				return true
+			}
+		}
+		return false
+	}
+	return false
+}
+
+// blake returns the prime implicants of the disjunction of the given conjunctions; nil, false when
+// the condition is unsatisfiable
+func blake(terms [][]guard) ([][]guard, bool) {
+	type lit struct {
+		e   *bexpr
+		pos bool
+	}
+	var parsed [][]lit
+	lm := map[string]bool{}
+	for _, t := range terms {
+		var ls []lit
+		for _, g := range t {
+			e := parseB(g.atom)
+			e.leaves(lm)
+			ls = append(ls, lit{e, g.pos})
+		}
+		parsed = append(parsed, ls)
+	}
+	var leaves []string
+	for l := range lm {
+		leaves = append(leaves, l)
+	}
+	sort.Strings(leaves)
+	n := len(leaves)
+	if n > 10 {
+		return terms, true // too many atoms: leave as written
+	}
+	size := 1 << n
+	truth := make([]bool, size)
+	any := false
+	as := map[string]bool{}
+	for a := 0; a < size; a++ {
+		for i, l := range leaves {
+			as[l] = a&(1<<i) != 0
+		}
+		for _, t := range parsed {
+			ok := true
+			for _, l := range t {
+				if l.e.eval(as) != l.pos {
+					ok = false
+					break
+				}
+			}
+			if ok {
+				truth[a] = true
+				any = true
+				break
+			}
+		}
+	}
+	if !any {
+		return nil, false
+	}
+	implicant := func(mask, val int) bool {
+		for a := 0; a < size; a++ {
+			if a&mask == val && !truth[a] {
+				return false
+			}
+		}
+		return true
+	}
+	var out [][]guard
+	for mask := 0; mask < size; mask++ {
+		// all values within the mask
+		for val := mask; ; val = (val - 1) & mask {
+			if implicant(mask, val) {
+				prime := true
+				for i := 0; i < n && prime; i++ {
+					if mask&(1<<i) != 0 && implicant(mask&^(1<<i), val&^(1<<i)) {
+						prime = false
+					}
+				}
+				if prime {
+					var gs []guard
+					for i, l := range leaves {
+						if mask&(1<<i) != 0 {
+							gs = append(gs, guard{l, val&(1<<i) != 0})
+						}
+					}
+					out = append(out, gs)
+				}
+			}
+			if val == 0 {
+				break
+			}
+		}
+	}
+	return out, true
+}
+
+// decOrDelete: "decrement the counter of a map entry and drop the entry at zero" is one fact,
+// however it is spelled (x--; if x == 0 {delete}  /  n := x-1; if n == 0 {delete} else {x = n})
+func decOrDelete(effs []effect) []effect {
+	for i := 0; i < len(effs); i++ {
+		t := effs[i].text
+		if !strings.HasPrefix(t, "call delete(") || !strings.HasSuffix(t, ")") {
+			continue
+		}
+		args := splitArgs(t[len("call delete(") : len(t)-1])
+		if len(args) != 2 {
+			continue
+		}
+		x := args[0] + "[" + args[1] + "]"
+		zero := map[string]bool{"eq(0," + x + ")": true, "eq((" + x + "-1),0)": true, "eq(0,(" + x + "-1))": true}
+		for j := 0; j < len(effs); j++ {
+			if effs[j].text != "set "+x+"--" && effs[j].text != "set "+x+" := ("+x+"-1)" {
+				continue
+			}
+			var gs []guard
+			for _, g := range effs[j].guards {
+				if !zero[g.atom] {
+					gs = append(gs, g)
+				}
+			}
+			ne := effect{"dec " + x + " (delete the entry at zero)", gs}
+			var out []effect
+			for k, e := range effs {
+				if k != i && k != j {
+					out = append(out, e)
+				}
+			}
+			return decOrDelete(append(out, ne))
 		}
 	}
 	return effs
+}
+
+// merge groups the occurrences of every effect and prints its condition canonically
+func merge(effs []effect) []effect {
+	effs = decOrDelete(effs)
+	byText := map[string][][]guard{}
+	var order []string
+	for _, e := range effs {
+		if _, ok := byText[e.text]; !ok {
+			order = append(order, e.text)
+		}
+		byText[e.text] = append(byText[e.text], e.guards)
+	}
+	var out []effect
+	for _, t := range order {
+		pis, sat := blake(byText[t])
+		if !sat {
+			continue // unreachable
+		}
+		for _, p := range pis {
+			out = append(out, effect{t, p})
+		}
+	}
+	return out
 }
 
 // abbreviations that keep the commit facts readable
@@ -817,7 +1203,7 @@ func main() {
 	Header(repo)
 	files := ParseDir(repo + "/x/evm/statedb")
 	kfiles := ParseDir(repo + "/x/evm/keeper")
-	c := &ctx{funcs: map[string]*ast.FuncDecl{}, consts: map[string]string{}}
+	c := &ctx{funcs: map[string]*ast.FuncDecl{}, consts: map[string]string{}, structs: map[string][]string{}, aliases: map[string]string{}}
 	collect := func(fs []File, prefix string) {
 		for _, fl := range fs {
 			for _, d := range fl.F.Decls {
@@ -862,6 +1248,15 @@ func main() {
 					ts := sp.(*ast.TypeSpec)
 					if st, ok := ts.Type.(*ast.StructType); ok {
 						structs[ts.Name.Name] = st
+						var fs []string
+						for _, f := range st.Fields.List {
+							for _, n := range f.Names {
+								fs = append(fs, n.Name)
+							}
+						}
+						c.structs[ts.Name.Name] = fs
+					} else if ts.Assign.IsValid() {
+						c.aliases[ts.Name.Name] = Nospace(ts.Type)
 					}
 				}
 			}
@@ -927,16 +1322,20 @@ func main() {
 		"stateObject.AddBalance", "stateObject.SubBalance", "stateObject.SetBalance", "stateObject.SetNonce",
 		"stateObject.SetCode", "stateObject.SetState", "stateObject.GetState", "stateObject.GetCommittedState",
 		"stateObject.setBalance", "stateObject.setNonce", "stateObject.setCode", "stateObject.setState",
+		"stateObject.isEmpty", "StateDB.Empty", "StateDB.Exist", "StateDB.HasSuicided",
 		"accessList.AddAddress", "accessList.AddSlot", "accessList.DeleteSlot", "accessList.DeleteAddress",
 		"accessList.Contains", "accessList.ContainsAddress")
-	// commitCtx is analysed with its helpers inlined
-	delete(primitives, "commitCtx")
 	var all []*fnFacts
 	for _, k := range keys {
+		if k == "StateDB.commitCtx" {
+			// commitCtx itself is analysed with its helpers inlined; for its callers it is a primitive
+			delete(primitives, "commitCtx")
+		}
 		all = append(all, c.analyse(k))
+		primitives["commitCtx"] = true
 	}
 	// the keeper side of Commit
-	kc := &ctx{funcs: map[string]*ast.FuncDecl{}, consts: map[string]string{}}
+	kc := &ctx{funcs: map[string]*ast.FuncDecl{}, consts: map[string]string{}, structs: map[string][]string{}, aliases: map[string]string{}}
 	for _, fl := range kfiles {
 		for _, d := range fl.F.Decls {
 			if fd, ok := d.(*ast.FuncDecl); ok {
@@ -1002,20 +1401,11 @@ func printBigInt(c *ctx) {
 		keys = append(keys, k)
 	}
 	sort.Strings(keys)
-	for _, key := range keys {
-		fd := c.funcs[key]
-		if fd.Body == nil {
-			continue
-		}
-		rn, rt := recvOf(fd)
-		w := &walker{c: c, recv: rn, recvTyp: rt, env: map[string]string{}, errVars: map[string]bool{}, stateRoots: map[string]bool{}, noCollapse: true}
-		i := 0
-		for _, p := range fd.Type.Params.List {
-			for _, n := range p.Names {
-				w.env[n.Name] = fmt.Sprintf("p%d", i)
-				i++
-			}
-		}
+	isHelper := func(fd *ast.FuncDecl) bool {
+		return !ast.IsExported(fd.Name.Name) && !primitives[fd.Name.Name]
+	}
+	var scan func(fd *ast.FuncDecl, w *walker, key string, depth int)
+	scan = func(fd *ast.FuncDecl, w *walker, key string, depth int) {
 		ast.Inspect(fd.Body, func(n ast.Node) bool {
 			switch x := n.(type) {
 			case *ast.AssignStmt:
@@ -1046,6 +1436,10 @@ func printBigInt(c *ctx) {
 					}
 				}
 			case *ast.CallExpr:
+				// same-package helpers are part of their callers
+				if hfd, _ := w.calleeDecl(x); hfd != nil && hfd.Body != nil && depth < 3 {
+					scan(hfd, w.subWalker(hfd, x), key, depth+1)
+				}
 				sel, ok := x.Fun.(*ast.SelectorExpr)
 				if !ok {
 					return true
@@ -1086,6 +1480,22 @@ func printBigInt(c *ctx) {
 			}
 			return true
 		})
+	}
+	for _, key := range keys {
+		fd := c.funcs[key]
+		if fd.Body == nil || isHelper(fd) {
+			continue
+		}
+		rn, rt := recvOf(fd)
+		w := &walker{c: c, recv: rn, recvTyp: rt, env: map[string]string{}, errVars: map[string]bool{}, stateRoots: map[string]bool{}, noCollapse: true}
+		i := 0
+		for _, p := range fd.Type.Params.List {
+			for _, n := range p.Names {
+				w.env[n.Name] = fmt.Sprintf("p%d", i)
+				i++
+			}
+		}
+		scan(fd, w, key, 0)
 	}
 	sort.Slice(facts, func(i, j int) bool {
 		if facts[i][0] != facts[j][0] {
